@@ -21,6 +21,8 @@ fn main() {
         "C08" => props::c08::run(),
         "C09" => props::c09::run(),
         "C10" => props::c10::run(),
+        "C11" => props::c11::run_check(),
+        "C16" => props::c16::run(),
         "C18" => props::c18::run(),
         "rulegen-stats" => { rulegen_stats(); 0 }
         "try" => { try_rule(&args[2..]); 0 }
@@ -45,6 +47,8 @@ fn replay(path: &str) -> i32 {
         "C08" => props::c08::replay(&v["case"]),
         "C09" => props::c09::replay(&v["case"]),
         "C10" => props::c10::replay(&v["case"]),
+        "C11" => props::c11::replay(&v["case"]),
+        "C16" => props::c16::replay(&v["case"]),
         "C18" => props::c18::replay(&v["case"]),
         _ => Err(format!("no replay for {pid}")),
     };
